@@ -159,7 +159,7 @@ PROPS['C20'] = dict(
     modules=['Vivid.Props.C20', 'Vivid.Props.C19C20Global'],
     gens=[],
     engines=[dict(name='actorsys', only=r'JOB-SURVIVES-OWNER|JOB-KEY-COLLISION|CANCEL-UNKNOWN|PANIC|FATAL', must_hit=['ev:sched-once', 'ev:sched-loop', 'ev:cancel:ok', 'ev:cancel:notfound', 'ev:sched-clear', 'ev:cron-invalid', 'sched-scenario', 'sched-owner:running:kill', 'sched-owner:kill:kill', 'sched-owner:okilled:poison', 'sched-owner:killed:fail-stop', 'sched-owner:okilled:fail-restart']),
-             dict(name='schedrt', nomodel=True, must_hit=['rt:once', 'rt:loop-cancel', 'rt:owner-restarted', 'rt:owner-killed', 'rt:fired-then-clear', 'rt:fired-then-killed', 'rt:fired-then-restarted', 'rt:through-mailbox'])],
+             dict(name='schedrt', nomodel=True, must_hit=['rt:once', 'rt:loop-cancel', 'rt:owner-restarted', 'rt:owner-killed', 'rt:fired-then-clear', 'rt:fired-then-killed', 'rt:fired-then-restarted', 'rt:through-mailbox', 'rt:foreign-same-reference', 'rt:foreign-same-reference-killed'])],
     rule=AS_RULE + ' Scheduler scenarios: Once / Loop / Cron(valid|invalid) / Cancel / Clear with shared and reused references, references and actor names containing ":", kills and supervised restarts in between (delays of an hour: registries compared, nothing fires). '
          'schedrt: seven real-time scenarios against go-quartz with a 40 ms unit and one-sided assertions (Once exactly once and not early, Loop stops after Cancel, nothing after Cancel / owner kill / owner restart, no dead letters, unknown Cancel, invalid cron), a failure is re-run twice in isolation before it is reported.',
     trusted_base=AS_TRUST + ['go-quartz (job queue, triggers, cron parser, 100 ms outdated threshold) and the wall clock: observed, not modelled beyond a keyed job table'],
